@@ -47,6 +47,26 @@ def heapGet (a : Addr) : M Cell := do
 def heapSet (a : Addr) (c : Cell) : M Unit :=
   modS fun s => { s with heap := s.heap.set! a c }
 
+/-- the constructor of a cell: Go writes through typed pointers, a write never changes it -/
+def Cell.kind : Cell → Nat
+  | .arr _ => 0 | .map _ => 1 | .box _ => 2 | .fn .. => 3 | .err .. => 4 | .rterr _ => 5 | .iter .. => 6
+
+/-- overwrite the cell at `a` with a cell of the same kind (array element / map entry / iterator
+    position update).  A cell of another kind at `a` is an ill-typed model heap: the run leaves
+    the modelled subset and nothing is overwritten. -/
+def heapUpd (a : Addr) (c : Cell) : M Unit := do
+  let old ← heapGet a
+  if old.kind == c.kind then heapSet a c
+  else unsupported "model: a write would change the kind of a heap cell"
+
+/-- `*p.Value = v` through an `*ObjectPtr` whose cell is `a`.  A cell of another kind at `a`
+    is an ill-typed model heap (no VM state has it): the run leaves the modelled subset, the
+    cell is not overwritten. -/
+def boxSet (a : Addr) (v : V) : M Unit := do
+  match (← heapGet a) with
+  | .box _ => heapSet a (.box v)
+  | _ => unsupported "model: bad box"
+
 def alloc (c : Cell) : M Addr := do
   let s ← getS
   let a := s.heap.size
@@ -389,14 +409,14 @@ def vIndexSet (t i v : V) : M (Except OpErr Unit) := do
     | some n =>
       if n ≥ 0 && n < len then
         match (← heapGet a) with
-        | .arr xs => heapSet a (.arr (xs.set! (off + n.toNat) v)); pure (.ok ())
+        | .arr xs => heapUpd a (.arr (xs.set! (off + n.toNat) v)); pure (.ok ())
         | _ => unsupported "model: array address does not hold an array"
       else pure (.error (.named "IndexOutOfBoundsError" ""))
     | none => pure (.error (.named "TypeError" s!"index type expected int|uint, found {typeName i}"))
   | .map a =>
     let k ← vString i
     let kvs ← mapEntries a
-    heapSet a (.map (insertKV k v kvs))
+    heapUpd a (.map (insertKV k v kvs))
     pure (.ok ())
   | .undefined | .int _ | .uint _ | .float _ | .char _ | .bool _ | .str _ | .cfun _ | .builtin _
   | .err _ | .rterr _ | .iter _ =>
